@@ -6,7 +6,9 @@
    modes:  tokens  value                -> wrap (json_tokens v), token kinds as the harness prints them, no spans
            expect  value                -> "wf=<b> distinct=<b> depth=<n> <dump of yaml_of_json v>"
            oracle  value @@ <hx load line> -> "1" / "0"   (c13_impl_ok on the implementation's documents)
-           coltab  <code points of a text, space separated> -> "1" / "0"   (colon_tab Tout: class of the known finding) *)
+           coltab  <code points of a text, space separated> -> "1" / "0"   (colon_tab Tout: class of the fixed finding, regression stream)
+           compact value                -> "ok=<b> <code points of json_compact v, space separated>"   (ok = json_wf && json_chars_ok: the
+                                           hypotheses of C13_text_compact) *)
 open Model
 
 let rec pos_of_int i = if i = 1 then XH else if i land 1 = 0 then XO (pos_of_int (i lsr 1)) else XI (pos_of_int (i lsr 1))
@@ -157,6 +159,10 @@ let () =
         else
           let body = if String.length r > 3 then String.sub r 3 (String.length r - 3) else "" in
           b (c13_impl_ok v (parse_docs body))
+    | "compact" ->
+        let v = parse_value line in
+        Printf.sprintf "ok=%s %s" (b (json_wf v && json_chars_ok v))
+          (String.concat " " (List.map (fun c -> string_of_int (int_of_n c)) (json_compact v)))
     | "coltab" ->
         let t = String.trim line in
         let cs = if t = "" then [] else List.map (fun x -> n_of_int (int_of_string x)) (String.split_on_char ' ' t) in
